@@ -26,7 +26,7 @@ from pathlib import PurePosixPath
 from pydantic import BaseModel, Field, computed_field
 
 from pydjinni.generator.java.jni.config import JniConfig
-from pydjinni.parser.ast import Interface, Parameter, Function
+from pydjinni.parser.ast import Interface, Parameter, Function, Flags
 from pydjinni.parser.base_models import BaseExternalType, BaseType, BaseField, TypeReference
 
 
@@ -184,6 +184,13 @@ class JniBaseType(BaseModel):
     @property
     def deprecated(self) -> str:
         return "[[deprecated]] " if self.decl.deprecated else ""
+
+
+class JniFlags(JniBaseType):
+    # a flags value crosses JNI as `java.util.EnumSet<...>` (see JavaFlags.typename), not as the enum class itself
+    @computed_field
+    @cached_property
+    def type_signature(self) -> str: return "Ljava/util/EnumSet;"
 
 
 class JniFunction(JniBaseType):
